@@ -74,7 +74,7 @@ def generate(rng, i, tier):
             opsl.append({"op": "bulk", "items": items})
         else:
             opsl.append({"op": "restart"})
-    return {"seed": rng.getrandbits(32), "listdir_salt": rng.choice([None, rng.getrandbits(16), rng.getrandbits(16)]), "ops": opsl, "clock": rng.choice(["frozen", "frozen", "tick", "jumps"])}
+    return {"seed": rng.getrandbits(32), "listdir_salt": rng.choice([None, rng.getrandbits(16), rng.getrandbits(16)]), "ops": opsl, "clock": rng.choice(["frozen", "frozen", "tick", "jumps"]), "log": rng.choice(["error"] * 5 + ["debug", "info"])}
 
 
 def reductions(sc):
@@ -84,6 +84,8 @@ def reductions(sc):
         yield with_(sc, listdir_salt=None)
     if sc.get("clock", "frozen") != "frozen":
         yield with_(sc, clock="frozen")
+    if sc.get("log", "error") != "error":
+        yield with_(sc, log="error")
     for j, op in enumerate(sc["ops"]):
         if op["op"] == "write" and op["content"] != "c0":
             c = [dict(o) for o in sc["ops"]]
@@ -278,7 +280,7 @@ def _manifest(name):
 def execute(sc):
     out = Out()
     seams.reset(sc["seed"], listdir_salt=sc.get("listdir_salt"))
-    with W.World() as w:
+    with W.World(log_level=sc.get("log", "error")) as w:
         cs = ops.new_csvpaths()
         age = 0
         model = {}  # name -> [(sha, basename, bytes)]
